@@ -39,7 +39,17 @@ fn interesting_u64(r: &mut Rng) -> u64 {
 }
 
 fn interesting_dur(r: &mut Rng) -> Duration {
-    match r.below(12) {
+    match r.below(15) {
+        // the overflow boundary of attempt k: Duration::MAX / k, give or take a few nanoseconds or a
+        // second (the carry out of the sub-second part decides whether step * k still fits)
+        12 | 13 | 14 => {
+            let k = 1 + r.below(64) as u128;
+            let lim = Duration::MAX.as_nanos();
+            let base = lim / k;
+            let d: i128 = *r.pick(&[-2i128, -1, 0, 1, 2, 3, 999_999_999, 1_000_000_000, -1_000_000_000, 500_000_000]);
+            let n = if d >= 0 { base.saturating_add(d as u128) } else { base.saturating_sub((-d) as u128) };
+            dur_from_nanos(n.min(lim))
+        }
         0 => Duration::ZERO,
         1 => Duration::from_nanos(1),
         2 => Duration::from_millis(r.below(5000)),
